@@ -61,3 +61,30 @@ func rulePureFormatter(c *Ctx) {
 	c.MinCount("functions reachable from appendFloat", len(fds), 12)
 	c.MinCount("package-level variable uses in the formatter", nUses, 1)
 }
+
+func init() {
+	reg("C18.arm", ruleFloatArm)
+	regWitness(
+		Witness{Rule: "C18.arm", Name: "float-arm-bypasses-formatter", File: "parsed_json.go", After: "\t\tcase TagFloat:\n\t\t\tv, err := i.Float()", Old: "\t\t\tdst, err = appendFloat(dst, v)\n", New: "\t\t\tif v == 0 {\n\t\t\t\tdst = append(dst, '0')\n\t\t\t\tbreak\n\t\t\t}\n\t\t\tdst, err = appendFloat(dst, v)\n", Breaks: "-0 is written as 0"},
+	)
+}
+
+// C18.arm — the float arm of Iter.MarshalJSONBuffer: what reaches the output for a float entry is exactly one result of
+// appendFloat on the entry's value (C10.emit restricted to the 'd' arm, so that the float property does not depend on
+// the other arms).
+func ruleFloatArm(c *Ctx) {
+	start := len(c.Obls)
+	ruleMarshalEmit(c)
+	kept := c.Obls[:start]
+	n := 0
+	for _, o := range c.Obls[start:] {
+		if strings.Contains(o.Site, "arm 'd'") || (o.Status != StProved && !strings.Contains(o.Site, "arm '")) {
+			kept = append(kept, o)
+			if strings.Contains(o.Site, "arm 'd'") {
+				n++
+			}
+		}
+	}
+	c.Obls = kept
+	c.MinCount("float arm obligations", n, 1)
+}
